@@ -33,7 +33,7 @@ func init() {
 	})
 }
 
-var c06Values = []any{1.0, "1", 2.0, "2", "x", "x b:y", "y", "a:1", "map[a:1]", "[1 2]", "<nil>", nil, true, "true", "", " ", "1 1", 1.5, "1.5"}
+var c06Values = []any{0.0, math.Copysign(0, -1), 1.0, "1", 2.0, "2", "x", "x b:y", "y", "a:1", "map[a:1]", "[1 2]", "<nil>", nil, true, "true", "", " ", "1 1", 1.5, "1.5"}
 
 // strings that are not valid UTF-8 and differ only in their invalid bytes
 var c06BadUTF8 = []any{"caf\xe9", "caf\xe8", "caf\xc3", "\xff", "\xfe", "caf\ufffd"}
